@@ -181,7 +181,7 @@ func checkC02(c *run.Ctx) {
 	}
 	n := c.N(1500, 100000)
 	c.Parallel("doc", n, func(i int, r *rand.Rand) {
-		kind := []string{"EdDSA", "EdDSA", "EdDSA", "EdDSA", "EdDSA", "ES512", "PS512", "ES256-signer"}[i%8]
+		kind := []string{"EdDSA", "EdDSA", "EdDSA", "EdDSA", "EdDSA", "ES512", "PS512", "ES256-signer"}[(i/3)%8] // independent of the residues used for the document features below
 		kp := all[kind][0]
 		interp := i%3 == 0
 		o := gen.PipeOpts{
@@ -191,6 +191,7 @@ func checkC02(c *run.Ctx) {
 			Sharing:    i%5 == 1,
 			TrickyKeys: i%2 == 0,
 			BigMaps:    i%4 == 0,
+			Signature:  (i/8)%3 == 1, // some steps arrive with a (stale) signature record: signing replaces it
 		}.NoSweep()
 		if interp {
 			// strings with references that all resolve
